@@ -47,6 +47,7 @@ fn main() {
     "C11" => drive::c11::check(Ctx::new(id, &tier, "exploration"), replay),
     "C13" => drive::c13::check(Ctx::new(id, &tier, "model_checking"), replay),
     "C14" => drive::c14::check(Ctx::new(id, &tier, "exploration"), replay),
+    "C15" => drive::c15::check(Ctx::new(id, &tier, "exploration"), replay),
     "C16" => drive::c16::check(Ctx::new(id, &tier, "model_checking"), replay),
     "C17" => drive::c17::check(Ctx::new(id, &tier, "model_checking"), replay),
     "C18" => drive::c18::check(Ctx::new(id, &tier, "model_checking"), replay),
